@@ -41,7 +41,7 @@ ASSUMPTIONS = E1_ASSUMPTIONS + [
     "in a multi-input call all inputs share the output directory: the top-level index.rst is excluded from comparison, and the "
     "worlds of one history use disjoint top-level names",
     "output directories are never inside the input tree here"]
-PROBES = ["op_run", "op_run_files", "op_run_file", "op_run_many", "op_stdout", "op_api", "op_documenter", "op_companion", "relocated", "cwd_changed",
+PROBES = ["transient_listing_fault", "output_dir_reused", "op_run", "op_run_files", "op_run_file", "op_run_many", "op_stdout", "op_api", "op_documenter", "op_companion", "relocated", "cwd_changed",
           "listing_key_changed", "world_of_interest_first", "world_of_interest_last", "world_of_interest_middle",
           "default_prefix", "explicit_prefix", "repeat_same_world_ge_3", "companion_hashseed_differs"]
 
@@ -120,7 +120,8 @@ def strategy(cfg):
         for _ in range(n):
             k = draw(st.sampled_from(kinds))
             w = draw(st.integers(0, cfg["worlds"] - 1))
-            op = {"op": k, "w": w, "f": draw(st.integers(0, 5)), "loc": draw(st.sampled_from(LOCS)),
+            op = {"op": k, "w": w, "f": draw(st.integers(0, 5)), "keep_out": draw(st.integers(0, 3)) == 0, "fault": draw(st.integers(0, 5)) == 0,
+                  "loc": draw(st.sampled_from(LOCS)),
                   "cwd": draw(st.sampled_from(["", "loc", "proj", "elsewhere"])),
                   "abs": draw(st.booleans()), "key": draw(st.integers(0, 30))}
             if k == "run_many":
@@ -215,15 +216,33 @@ def evaluate(spec, ctx):
             w = op["w"]
             target = posixpath.join(op["loc"], spec["worlds"][w]["name"])
             cwd, arg = _spell(op, target)
-            remove_outputs(base, ["out"])
+            if op.get("keep_out") and op["op"] in ("run", "run_file", "run_files"):
+                ctx.probes["output_dir_reused"] += 1      # whatever the previous step wrote stays in the way
+            else:
+                remove_outputs(base, ["out"])
             if op["op"] == "run":
+                faults = []
+                if op.get("fault"):
+                    # a transient failure when the auto-exclusion probe lists one top-level subdirectory: the run may
+                    # fail loudly; if it claims success its files must be the same as ever
+                    tops = sorted(d for d in refs.tree_dirs(spec["worlds"][w]["tree"]) if d and "/" not in d)
+                    if tops:
+                        faults = [{"seam": "scandir", "errno": "EIO",
+                                   "path": posixpath.join(target, tops[op.get("f", 0) % len(tops)])}]
                 res = core.run_call(base, {"cwd": cwd, "argv": ["-r", "-o", "{BASE}/out"] + extra + [arg],
-                                           "listing_key": op["key"]}, snap=False)
+                                           "listing_key": op["key"], "faults": faults}, snap=False)
                 ctx.note_call(res)
+                if res.fired:
+                    ctx.probes["transient_listing_fault"] += 1
+                    if res.status != 0:
+                        continue        # failed loudly: nothing to compare
                 if res.status != 0:
                     viols.append(viol("run-failed", f"step {opi}: status {res.status} exc {res.exc}"))
                     break
                 pages = core.read_tree(base, "out")
+                if op.get("keep_out"):
+                    # leftovers of other worlds / entry points are not this run's business: keep this world's files
+                    pages = {k: v for k, v in pages.items() if k == "index.rst" or k.split("/")[0].startswith(f"w{w}_")}
                 record(w, "cli", opi, pages, op)
                 record(w, "cli-noindex", opi, {k: v for k, v in pages.items() if k != "index.rst"}, op)
             elif op["op"] == "run_file":
@@ -240,7 +259,9 @@ def evaluate(spec, ctx):
                 if res.status != 0:
                     viols.append(viol("run-failed", f"step {opi} (single file): status {res.status} exc {res.exc}"))
                     break
-                record(w, "file:" + rel, opi, core.read_tree(base, "out"), op)
+                pname = refs.stem(posixpath.basename(rel)) + ".rst"
+                got_pages = core.read_tree(base, "out")
+                record(w, "file:" + rel, opi, {pname: got_pages[pname]} if pname in got_pages else {}, op)
             elif op["op"] == "run_files":
                 # several lone files of the world in one call, each must come out as if documented alone
                 cmf = sorted(f for f in refs.tree_files(spec["worlds"][w]["tree"]) if refs.is_cmake(f))
